@@ -242,7 +242,7 @@ func TestC11(t *testing.T) {
 					ev.Violation(t, "C11", map[string]any{"bytes": hx(pristine)}, "Spec() of a copy of the same bytes, after the caller edited the result of an earlier parse: %s", d)
 				}
 			}
-			b = pristine
+			copy(b, pristine) // undo the caller's edit in the bytes the first spec is a view of; b stays the slice Bytes() returned
 			cfgs = append(cfgs, b)
 			switch len(s.Name) {
 			case 1:
